@@ -131,16 +131,23 @@ pub fn run() -> i32 {
     let inv: Vec<SegBits> = ["p", "b", "t", "a", "m"].iter().map(|t| seg(t)).collect();
     let words: Vec<CW> = word_space(&inv, 3).into_iter().filter(|w| !has_adjacent_equal(w)).collect();
     let fsub: Vec<usize> = vec![0, 1, 2, 3, 6, 11, 15, 16, 20]; // cons son syll cont nasal voice round ant high
-    let mut pairs: Vec<(usize, usize, bool)> = vec![];
-    for f in &fsub { for g in &fsub { if f != g { for v in [true, false] { pairs.push((*f, *g, v)); } } } }
+    // ctx: 0 none; 1..4 an after-side context / exception (read from the not yet rewritten part of the word, so each position is judged on the input
+    // word): a candidate that the environment rejects must leave nothing behind for the candidate right after it
+    let mut pairs: Vec<(usize, usize, bool, u8)> = vec![];
+    for f in &fsub { for g in &fsub { if f != g { for v in [true, false] { for ctx in 0..5u8 { pairs.push((*f, *g, v, ctx)); } } } } }
     let mut t2 = Acc { evals: 0, nontrivial: 0, viols: vec![], states: Default::default(), fired: 0 };
     par_fold(pairs.len(), 2, || Acc { evals: 0, nontrivial: 0, viols: vec![], states: Default::default(), fired: 0 }, |i, a| {
-        let (f, g, v) = pairs[i];
-        let text = format!("[α{}, {}{}] > [-α{}]", FEATS[f].0, if v { "+" } else { "-" }, FEATS[g].0, FEATS[f].0);
+        let (f, g, v, ctx) = pairs[i];
+        let text = format!("[α{}, {}{}] > [-α{}]{}", FEATS[f].0, if v { "+" } else { "-" }, FEATS[g].0, FEATS[f].0, [" ", " / _ a", " | _ a", " / _ #", " | _ C"][ctx as usize]);
+        let a_seg = seg("a");
+        // is the environment satisfied for the segment followed by `next` (None = end of word)?
+        let env_ok = |next: Option<SegBits>| -> bool { match ctx { 0 => true, 1 => next == Some(a_seg), 2 => next != Some(a_seg), 3 => next.is_none(), _ => !next.map(|n| model::feat(n, 2) == Some(false)).unwrap_or(false) } };
         let Out::Ok(Ok(compiled)) = guarded(5_000_000, || av::compile(&[group(&[&text])])) else { a.viols.push(Viol { key: format!("compile|{}", text), desc: format!("`{}` does not compile", text), case: json!({"rule": text}) }); return; };
         for w in &words {
             let mut e = w.clone();
-            for sy in e.iter_mut() { for b in sy.segs.iter_mut() { if model::feat(*b, g) == Some(v) { if let Some(x) = model::feat(*b, f) { *b = model::set_feat(*b, f, !x); } } } }
+            let flat: Vec<SegBits> = w.iter().flat_map(|sy| sy.segs.iter().copied()).collect();
+            let mut k = 0;
+            for sy in e.iter_mut() { for b in sy.segs.iter_mut() { let next = flat.get(k + 1).copied(); k += 1; if model::feat(*b, g) == Some(v) && env_ok(next) { if let Some(x) = model::feat(*b, f) { *b = model::set_feat(*b, f, !x); } } } }
             if has_adjacent_equal(&e) { continue; }
             a.evals += 1;
             match guarded(200_000, || av::apply_group(&compiled, 0, word_of(w)).map(|x| cw_of(&x))) {
@@ -219,6 +226,30 @@ pub fn run() -> i32 {
     r.boxes.push(json!({"box": "alpha inside a set alternative (context set / input set), later use plain or inverted; disjoint alternatives", "rules": sforms.len(), "outer_segments": pick.len(), "cases": t4.evals, "model_predicts_firing": t4.nontrivial}));
     r.guard(t4.nontrivial > 10_000, "box 4: more than 10k cases fire");
     tot.evals += t4.evals; tot.nontrivial += t4.nontrivial; tot.viols.extend(t4.viols); tot.states.extend(t4.states);
+    // ---- box 8: a matrix that names a feature AND a length: every copy of the resulting (possibly longer or shorter) segment carries the feature
+    let mut t8 = Acc { evals: 0, nontrivial: 0, viols: vec![], states: Default::default(), fired: 0 };
+    let lens8: [(&str, u8); 5] = [("+long", 1), ("-long", 2), ("+overlong", 3), ("-overlong", 4), ("+long, -overlong", 5)];
+    par_fold(26 * 2 * lens8.len(), 4, || Acc { evals: 0, nontrivial: 0, viols: vec![], states: Default::default(), fired: 0 }, |i, a| {
+        let (f, v, lk) = (i / (2 * lens8.len()), (i / lens8.len()) % 2 == 0, i % lens8.len());
+        let text = format!("[] > [{}, {}{}]", lens8[lk].0, if v { "+" } else { "-" }, FEATS[f].0);
+        let Out::Ok(Ok(compiled)) = guarded(5_000_000, || av::compile(&[group(&[&text])])) else { a.viols.push(Viol { key: format!("compile|{}", text), desc: format!("`{}` does not compile", text), case: json!({"rule": text}) }); return; };
+        for x in pick.iter() { for len in 1..=3usize {
+            let w: CW = vec![CSyl { segs: vec![*x; len], stress: 0, tone: 0 }];
+            let nb = model::set_feat(*x, f, v);
+            let nl = match lens8[lk].1 { 1 => len.max(2), 2 => 1, 3 => 3, 4 => len.min(2), _ => 2 };
+            let e: CW = vec![CSyl { segs: vec![nb; nl], stress: 0, tone: 0 }];
+            a.evals += 1;
+            match guarded(200_000, || av::apply_group(&compiled, 0, word_of(&w)).map(|x| cw_of(&x))) {
+                Out::Ok(Ok(got)) if got == e => { if e != w { a.nontrivial += 1; } a.states.insert(hash64(&got)); }
+                Out::Ok(Ok(got)) => a.viols.push(Viol { key: format!("{}|{}", text, show_cw(&w)), desc: format!("`{}` on /{}/: model /{}/ (every copy carries the feature), implementation /{}/", text, show_cw(&w), show_cw(&e), show_cw(&got)), case: json!({"rule2": text, "word": cw_json(&w), "expected": cw_json(&e)}) }),
+                Out::Ok(Err(er)) => a.viols.push(Viol { key: format!("{}|{}", text, show_cw(&w)), desc: format!("`{}` on /{}/: error {:?}", text, show_cw(&w), er), case: json!({"rule2": text, "word": cw_json(&w), "expected": cw_json(&e)}) }),
+                o => a.viols.push(Viol { key: format!("crash|{}", text), desc: o.crash_desc().unwrap(), case: json!({"rule2": text, "word": cw_json(&w), "expected": cw_json(&e)}) }),
+            }
+        } }
+    }, |a| { t8.evals += a.evals; t8.nontrivial += a.nontrivial; t8.viols.extend(a.viols); t8.states.extend(a.states); });
+    r.boxes.push(json!({"box": "a feature and a length in one output matrix, on short / long / overlong segments", "rules": 26 * 2 * lens8.len(), "cases": t8.evals, "model_predicts_change": t8.nontrivial}));
+    r.guard(t8.nontrivial > 10_000, "box 8: more than 10k cases change the word");
+    tot.evals += t8.evals; tot.nontrivial += t8.nontrivial; tot.viols.extend(t8.viols); tot.states.extend(t8.states);
     // ---- box 6: bindings made by an environment that then fails belong to that attempt only. (a) an environment set whose first alternative binds the
     // alpha on x and then fails on y, while the second binds it on y: `t > [tone:7] / :{ _ [αF] p, _ [] [αF] }:` (both orders) on /t x y/ fires iff
     // (F defined on x and y = p) or F defined on y. (b) insertion between two contexts, `* > ə / [αF] _ [αF]` on /x y z/: a schwa between every
